@@ -4,7 +4,6 @@ package tls
 
 import (
 	"context"
-	"errors"
 	"time"
 
 	"github.com/hashicorp/nodeenrollment"
@@ -13,53 +12,6 @@ import (
 	"github.com/hashicorp/nodeenrollment/zzverif/vfs"
 	"google.golang.org/protobuf/proto"
 )
-
-var errGate = errors.New("gate reached")
-
-// vfGateStore holds node records (served by key ID and, when loader is set, by node ID in list order).
-// Loading the roots returns errGate, so the harness observes "verification gate passed" without running
-// the certificate-minting tail (guidance: end paths after the check they guard); the full tail runs in C02/C04.
-type vfGateStore struct {
-	nodes         []*types.NodeInformation
-	emptyNotFound bool
-}
-
-func (s *vfGateStore) Store(ctx context.Context, m nodeenrollment.MessageWithId) error  { return nil }
-func (s *vfGateStore) Remove(ctx context.Context, m nodeenrollment.MessageWithId) error { return nil }
-func (s *vfGateStore) List(ctx context.Context, m proto.Message) ([]string, error)      { return nil, nil }
-func (s *vfGateStore) Load(ctx context.Context, m nodeenrollment.MessageWithId) error {
-	switch t := m.(type) {
-	case *types.NodeInformation:
-		for _, n := range s.nodes {
-			if n.Id == t.Id {
-				t.CertificatePublicKeyPkix = n.CertificatePublicKeyPkix
-				t.NodeId = n.NodeId
-				return nil
-			}
-		}
-		return nodeenrollment.ErrNotFound
-	case *types.RootCertificates:
-		return errGate
-	}
-	return nodeenrollment.ErrNotFound
-}
-
-type vfGateNodeIdStore struct{ *vfGateStore }
-
-func (s *vfGateNodeIdStore) LoadByNodeId(ctx context.Context, m nodeenrollment.MessageWithNodeId) error {
-	set := m.(*types.NodeInformationSet)
-	var out []*types.NodeInformation
-	for _, n := range s.nodes {
-		if n.NodeId == set.NodeId {
-			out = append(out, proto.Clone(n).(*types.NodeInformation))
-		}
-	}
-	if len(out) == 0 && s.emptyNotFound {
-		return nodeenrollment.ErrNotFound
-	}
-	set.Nodes = out // a storage may also report "no records" as an empty set
-	return nil
-}
 
 // vfSigChoice is one of the adversary's signatures over msg: by a universe key, or raw bytes of any length.
 func vfSigChoice(label string, msg []byte) (sig []byte, key int) {
@@ -75,7 +27,10 @@ func vfSigChoice(label string, msg []byte) (sig []byte, key int) {
 // signatures chosen independently.
 func verifC05(nrec int, loader bool) {
 	ctx := context.Background()
-	base := &vfGateStore{emptyNotFound: vf.Bool("storage-reports-no-records-as-not-found")}
+	t0 := vf.Now()
+	vf.ShortScenario(t0, time.Second)
+	inner := &vfs.Storage{}
+	vfs.StoreRoots(ctx, inner, t0)
 	keys, groups := make([]int, nrec), make([]string, nrec)
 	for i := 0; i < nrec; i++ {
 		keys[i] = vf.Int("reckey", 0, 2)
@@ -88,17 +43,20 @@ func verifC05(nrec int, loader bool) {
 		}
 		pk := vf.Pkix(keys[i])
 		id, _ := nodeenrollment.KeyIdFromPkix(pk)
-		base.nodes = append(base.nodes, &types.NodeInformation{Id: id, CertificatePublicKeyPkix: pk, NodeId: groups[i]})
+		if err := (&types.NodeInformation{Id: id, CertificatePublicKeyPkix: pk, NodeId: groups[i]}).Store(ctx, inner); err != nil {
+			panic(err)
+		}
 	}
 	nonce := vf.Bytes("nonce", 40)
 	nsig, nkey := vfSigChoice("noncesig", nonce)
 	reqKey := vf.Int("reqkey", 0, 3)
 	req := &types.GenerateServerCertificatesRequest{CertificatePublicKeyPkix: vf.Pkix(reqKey), Nonce: nonce, NonceSignature: nsig}
 	var state []byte
+	stateVal := vf.String("state-value", 8)
 	skey := -1
 	if vf.Bool("has-client-state") {
 		var err error
-		if state, err = proto.Marshal(vfs.State(vf.String("state-value", 8))); err != nil {
+		if state, err = proto.Marshal(vfs.State(stateVal)); err != nil {
 			panic(err)
 		}
 		req.ClientState = state
@@ -112,9 +70,9 @@ func verifC05(nrec int, loader bool) {
 		nodeId = "unknown-node"
 	}
 	req.NodeId = nodeId
-	var st nodeenrollment.Storage = base
+	var st nodeenrollment.Storage = inner
 	if loader {
-		st = &vfGateNodeIdStore{base}
+		st = &vfs.NodeIdStorage{Storage: inner, EmptyAsSet: !vf.Bool("storage-reports-no-records-as-not-found")}
 	}
 	resp, err := GenerateServerCertificates(ctx, st, req)
 
@@ -132,15 +90,18 @@ func verifC05(nrec int, loader bool) {
 		}
 		verified = vf.Or(verified, vf.And(inScope, ok))
 	}
-	if errors.Is(err, errGate) {
-		vf.Reach("gate-passed")
+	if err == nil {
+		vf.Reach("certificates-generated")
 		vf.Assert("verified-by-a-stored-record-in-scope", verified)
+		vf.Assert("one-certificate-per-root", resp != nil && len(resp.CertificateBundles) == 2)
+		if resp != nil && len(state) > 0 {
+			vf.Assert("client-state-is-the-verified-one", vfs.StateValue(resp.ClientState) == stateVal)
+		}
 	} else {
 		vf.Reach("rejected")
-		vf.Assert("rejection-is-an-error", err != nil)
-		vf.Assert("valid-signature-by-any-record-in-scope-passes", vf.Not(verified))
+		vf.Assert("valid-signature-by-any-record-in-scope-succeeds", vf.Not(verified))
+		vf.Assert("no-certificates-and-no-state-without-success", resp == nil)
 	}
-	vf.Assert("no-response-without-success", vf.Implies(err != nil, resp == nil))
 }
 
 func VerifC05KeyIdPath1()  { verifC05(1, false) }
@@ -167,7 +128,7 @@ func VerifC13GenerateFaults() {
 	f := &vfs.Faulty{Inner: inner, FailAt: vf.Int("fail-at", -1, maxOps), ErrKind: vf.Int("error-kind", 0, 2)}
 	snap := inner.Snapshot()
 	resp, err := GenerateServerCertificates(ctx, f, &types.GenerateServerCertificatesRequest{CertificatePublicKeyPkix: vf.Pkix(2), Nonce: nonce, NonceSignature: vf.SigBy(2, nonce)})
-	vf.Assert("op-count-within-bound", f.N <= maxOps)
+	vf.Bound("op-count-within-bound", f.N <= maxOps)
 	if f.Hit {
 		vf.Reach("fault-hit")
 	}
